@@ -306,6 +306,15 @@ mut("c07-keyline-repeat", "C07", "seqio/insdc.go",
 mut("c07-double-advance", "C07", "location.go", "\tif c != '^' {\n\t\terr := pars.NewError(\"expected `^`\", state.Position())\n\t\tstate.Pop()\n\t\treturn err\n\t}\n\tstate.Advance()\n", "\tif c != '^' {\n\t\terr := pars.NewError(\"expected `^`\", state.Position())\n\t\tstate.Pop()\n\t\treturn err\n\t}\n\tstate.Advance()\n\tstate.Advance()\n", ["REQ-ADV|gts.parseBetween"])
 mut("c07-silent-guard-rewrite", "C07", "seqio/genbank_subparsers.go", "if len(s) < i+2 {", "if i+2 > len(s) {", silent=True)
 
+# ---------------------------------------------------------------- C12 (Repair: no-panic + structural clauses)
+mut("c12-revert-join-panic", "C12", "feature.go",
+    "\t\t\t\tkeep = append(keep, indices[:len(locs)]...)\n\t\t\t} else {\n\t\t\t\tkeep = append(keep, indices...)\n\t\t\t}\n",
+    "\t\t\t}\n\t\t\tkeep = append(keep, indices[:len(locs)]...)\n", ["IDX|gts.Repair"])
+mut("c12-group-key-no-props", "C12", "feature.go", 'key := fmt.Sprintf("%s:%v", f.Key, f.Props)', 'key := fmt.Sprintf("%s:%v", f.Key, len(f.Key))', ["GROUP-KEY|gts.Repair"])
+mut("c12-force-always", "C12", "feature.go", 'force := ff[indices[0]].Key == "source"', 'force := ff[indices[0]].Key != ""', ["FORCE-SOURCE|gts.Repair"])
+mut("c12-no-copy", "C12", "feature.go", "\tgg := make([]Feature, len(ff))\n\tcopy(gg, ff)\n", "\tgg := ff\n", ["ONLY-LOC|gts.Repair|copy"])
+mut("c12-silent-group-key-order", "C12", "feature.go", 'key := fmt.Sprintf("%s:%v", f.Key, f.Props)', 'key := fmt.Sprintf("%v|%s", f.Props, f.Key)', silent=True)
+
 if __name__ == "__main__":
     here = os.path.dirname(os.path.abspath(__file__))
     ids = [m["id"] for m in M]
